@@ -36,9 +36,11 @@ Theorem C06_variance_invariant : forall s c sum sum2 w, 0 < c ->
 Proof. exact variance_scale_invariant. Qed.
 Print Assumptions C06_variance_invariant.
 
-Theorem C06_negative_factor_refused : forall h c k d x, kind_dt k = Some d -> c < 0 -> In x (ah_freq h) -> 0 < x ->
-  imul_k h c k = Err EValue.
-Proof. exact negative_factor_refused. Qed.
+(** a negative factor (or divisor) is refused whatever the contents, also when they are all zero (/repo fix: before, h * -1 on
+    empty contents went through and negated the missed counts) *)
+Theorem C06_negative_factor_refused : forall h c k d, kind_dt k = Some d -> c < 0 ->
+  imul_k h c k = Err EValue /\ idiv_k h c k = Err EValue.
+Proof. intros. split; [eapply negative_factor_refused | eapply negative_divisor_refused]; eauto. Qed.
 Print Assumptions C06_negative_factor_refused.
 
 Example C06_example :
